@@ -28,14 +28,16 @@ def kindArity : Kind → Option (Nat × Nat × Nat)
 
 /-- the gate has the shape its kind requires.  `UnitaryMatrix` is excluded (numeric gates cannot carry
     a matrix); kinds without a modelled matrix (`Measurement`, IonQ natives, `Parametric*`) are
-    unconstrained. -/
+    unconstrained.  A `PauliRotation` carries one id in `{1,2,3}` per target (as the factory builds it;
+    `PauliRotationDecomposeTranspiler` treats every other id like `Z`). -/
 def arityOK (k : Kind) (nc nt np : Nat) (paulis : List Nat) : Bool :=
   match kindArity k with
   | some a => a == (nc, nt, np) && paulis.isEmpty
   | none =>
     match k with
     | .Pauli => nc == 0 && np == 0 && paulis.length == nt
-    | .PauliRotation => nc == 0 && np == 1 && paulis.length == nt
+    | .PauliRotation => nc == 0 && np == 1 && paulis.length == nt &&
+        paulis.all fun p => p == 1 || p == 2 || p == 3
     | .UnitaryMatrix => false
     | _ => true
 
